@@ -197,31 +197,61 @@ Theorem c08_evicted_closed_and_reprepared : forall K ops w,
 Proof. exact evicted_closed. Qed.
 Print Assumptions c08_evicted_closed_and_reprepared.
 
+(** Portals and statements are two name spaces (all states, no guard): a Close of a PORTAL —
+    when it is buffered, in the 'S' arm, on the backend and in the specification — leaves the
+    client map, the pool, every server cache and every statement table as they are (pgcat only
+    forwards it); a Close of a STATEMENT leaves the backend's portals alone. *)
+Theorem c08_portal_close_inert : forall K w c p a b,
+  (forall c', cmap (clients (fst (step K w (CloseP c p))) c') = cmap (clients w c')) /\
+  servers (fst (step K w (CloseP c p))) = servers w /\
+  plru (fst (step K w (CloseP c p))) = plru w /\
+  a_map (sitem K a (IClosePortal p)) = a_map a /\
+  a_sv (sitem K a (IClosePortal p)) = a_sv a /\
+  a_fwd (sitem K a (IClosePortal p)) = a_fwd a ++ [BCloseP p] /\
+  a_syn (sitem K a (IClosePortal p)) = a_syn a /\
+  b_tab (fst (bstep K b (BCloseP p))) = b_tab b /\
+  b_portal (fst (bstep K b (BClose p))) = b_portal b /\
+  d_tab (fst (dstep K (mkD (b_tab b) (b_portal b) (b_skip b)) (CloseP c p))) = b_tab b.
+Proof. exact portal_close_inert. Qed.
+Print Assumptions c08_portal_close_inert.
+
+(** Named portals inside the guard of [c08_refines_direct]: portal and statement with the SAME
+    name, Close('P') then use of the statement, Close('S') then Execute of the still-open portal,
+    Describe('P'), several portals in one batch. *)
+Example c08_portals_nonvacuous :
+  agree (Kid 4) [Parse 0 1 10; Bind 0 1 1; Execute 0 1; CloseP 0 1; Bind 0 0 1; Execute 0 0; Sync 0 0; Bind 0 1 1; DescribeP 0 1; Execute 0 1; Sync 0 0] = (true, true) /\
+  agree (Kid 4) [Parse 0 1 10; Parse 0 2 11; Bind 0 2 1; Bind 0 1 2; Close 0 1; Execute 0 2; Execute 0 1; CloseP 0 2; Sync 0 0; Bind 0 0 2; Execute 0 0; Sync 0 1] = (true, true) /\
+  model_obs (Kid 4) [Parse 0 1 10; Bind 0 1 1; CloseP 0 1; Sync 0 0; Bind 0 0 1; Execute 0 0; Sync 0 0]
+    = [NReplies 0 ([], (1, 1, 1, 1)); NReplies 0 ([RRow 10], (0, 1, 0, 1))] /\
+  (* an Execute of a closed portal is an error on both sides (outside the guard) *)
+  agree (Kid 4) [Parse 0 1 10; Bind 0 1 1; CloseP 0 1; Execute 0 1; Sync 0 0; Bind 0 0 1; Execute 0 0; Sync 0 0] = (false, true).
+Proof. vm_compute. repeat split; reflexivity. Qed.
+
 (** ** Non-vacuity: guarded programs with evictions, shared and shadowed names, several servers,
     names closed and re-prepared inside one batch, one statement bound many times with cache size 1 *)
 Example c08_guard_nonvacuous :
-  agree (Kid 1) [Parse 0 1 10; Sync 0 0; Parse 1 1 11; Sync 1 0; Parse 1 2 10; Bind 1 2; Execute 1; Sync 1 0; Bind 0 1; Execute 0; Sync 0 0] = (true, true) /\
-  agree (Kid 4) [Parse 0 1 10; Parse 1 1 11; Sync 0 0; Sync 1 0; Bind 0 1; Execute 0; Sync 0 1; Bind 1 1; Execute 1; Sync 1 1] = (true, true) /\
-  agree (Kid 2) [Parse 0 1 10; Parse 0 2 11; Sync 0 0; Bind 0 1; Execute 0; Bind 0 2; Execute 0; Sync 0 1; Close 0 1; Sync 0 1; Parse 0 1 12; Bind 0 1; Execute 0; Sync 0 0] = (true, true) /\
-  agree (Kid 1) [Parse 0 1 10; Sync 0 0; Bind 0 1; Execute 0; Bind 0 1; Execute 0; Bind 0 1; Execute 0; Describe 0 1; Sync 0 0] = (true, true) /\
-  model_obs (Kid 1) [Parse 0 1 10; Bind 0 1; Execute 0; Sync 0 0; Parse 0 2 11; Bind 0 2; Execute 0; Sync 0 0; Bind 0 1; Execute 0; Sync 0 0]
+  agree (Kid 1) [Parse 0 1 10; Sync 0 0; Parse 1 1 11; Sync 1 0; Parse 1 2 10; Bind 1 0 2; Execute 1 0; Sync 1 0; Bind 0 0 1; Execute 0 0; Sync 0 0] = (true, true) /\
+  agree (Kid 4) [Parse 0 1 10; Parse 1 1 11; Sync 0 0; Sync 1 0; Bind 0 0 1; Execute 0 0; Sync 0 1; Bind 1 0 1; Execute 1 0; Sync 1 1] = (true, true) /\
+  agree (Kid 2) [Parse 0 1 10; Parse 0 2 11; Sync 0 0; Bind 0 0 1; Execute 0 0; Bind 0 0 2; Execute 0 0; Sync 0 1; Close 0 1; Sync 0 1; Parse 0 1 12; Bind 0 0 1; Execute 0 0; Sync 0 0] = (true, true) /\
+  agree (Kid 1) [Parse 0 1 10; Sync 0 0; Bind 0 0 1; Execute 0 0; Bind 0 0 1; Execute 0 0; Bind 0 0 1; Execute 0 0; Describe 0 1; Sync 0 0] = (true, true) /\
+  model_obs (Kid 1) [Parse 0 1 10; Bind 0 0 1; Execute 0 0; Sync 0 0; Parse 0 2 11; Bind 0 0 2; Execute 0 0; Sync 0 0; Bind 0 0 1; Execute 0 0; Sync 0 0]
     = [NReplies 0 ([RRow 10], (1, 1, 0, 1)); NReplies 0 ([RRow 11], (1, 1, 0, 1)); NReplies 0 ([RRow 10], (0, 1, 0, 1))].
 Proof. vm_compute. repeat split; reflexivity. Qed.
 
 (** ** Regressions: the message sequences of the repaired defects F11a, F11b, F11c, F11d, F11f and
     the repaired half of F11g now behave like a direct connection ([agree K ops = (guard, equal)]). *)
 Example c08_fixed_F11bcd_now_inside_the_guard :
-  agree (Kid 8) [Parse 0 1 10; Sync 0 0; Close 0 1; Parse 0 1 11; Sync 0 0; Bind 0 1; Execute 0; Sync 0 0] = (true, true) /\
-  agree (Kid 8) [Parse 0 1 10; Sync 0 0; Close 0 1; Parse 0 1 11; Bind 0 1; Execute 0; Sync 0 0; Parse 1 5 11; Bind 1 5; Execute 1; Sync 1 0] = (true, true) /\
-  agree (Kid 8) [Parse 0 1 10; Sync 0 0; Bind 0 1; Execute 0; Close 0 1; Parse 0 1 11; Sync 0 1] = (true, true) /\
-  agree (Kid 2) [Parse 0 0 10; Bind 0 0; Execute 0; Parse 0 0 11; Bind 0 0; Execute 0; Sync 0 0] = (true, true).
+  agree (Kid 8) [Parse 0 1 10; Sync 0 0; Close 0 1; Parse 0 1 11; Sync 0 0; Bind 0 0 1; Execute 0 0; Sync 0 0] = (true, true) /\
+  agree (Kid 8) [Parse 0 1 10; Sync 0 0; Close 0 1; Parse 0 1 11; Bind 0 0 1; Execute 0 0; Sync 0 0; Parse 1 5 11; Bind 1 0 5; Execute 1 0; Sync 1 0] = (true, true) /\
+  agree (Kid 8) [Parse 0 1 10; Sync 0 0; Bind 0 0 1; Execute 0 0; Close 0 1; Parse 0 1 11; Sync 0 1] = (true, true) /\
+  agree (Kid 2) [Parse 0 0 10; Bind 0 0 0; Execute 0 0; Parse 0 0 11; Bind 0 0 0; Execute 0 0; Sync 0 0] = (true, true).
 Proof. vm_compute. repeat split; reflexivity. Qed.
 Example c08_fixed_F11a_F11f_F11g_agree_outside_the_guard :
-  agree (Kid 8) [Parse 0 1 90; Parse 0 2 10; Sync 0 0; Parse 0 2 10; Sync 0 0; Bind 0 2; Execute 0; Sync 0 0] = (false, true) /\
-  agree (Kid 8) [Parse 0 1 90; Parse 0 2 10; Sync 0 0; Parse 1 7 10; Bind 1 7; Execute 1; Sync 1 0] = (false, true) /\
-  agree (Kid 4) [Parse 0 1 10; Sync 0 0; Parse 1 1 99; Bind 1 1; Execute 1; Sync 1 0; Bind 0 1; Execute 0; Sync 0 0] = (false, true) /\
-  agree (Kid 2) [Parse 1 1 10; Sync 1 0; Parse 1 2 11; Sync 1 0; Parse 0 1 90; Sync 0 1; Bind 0 1; Execute 0; Sync 0 0;
-                 Bind 1 1; Execute 1; Sync 1 0; Bind 1 1; Execute 1; Sync 1 0] = (false, true).
+  agree (Kid 8) [Parse 0 1 90; Parse 0 2 10; Sync 0 0; Parse 0 2 10; Sync 0 0; Bind 0 0 2; Execute 0 0; Sync 0 0] = (false, true) /\
+  agree (Kid 8) [Parse 0 1 90; Parse 0 2 10; Sync 0 0; Parse 1 7 10; Bind 1 0 7; Execute 1 0; Sync 1 0] = (false, true) /\
+  agree (Kid 4) [Parse 0 1 10; Sync 0 0; Parse 1 1 99; Bind 1 0 1; Execute 1 0; Sync 1 0; Bind 0 0 1; Execute 0 0; Sync 0 0] = (false, true) /\
+  agree (Kid 2) [Parse 1 1 10; Sync 1 0; Parse 1 2 11; Sync 1 0; Parse 0 1 90; Sync 0 1; Bind 0 0 1; Execute 0 0; Sync 0 0;
+                 Bind 1 0 1; Execute 1 0; Sync 1 0; Bind 1 0 1; Execute 1 0; Sync 1 0] = (false, true).
 Proof. vm_compute. repeat split; reflexivity. Qed.
 
 (** ** The hypothesis and every clause of the guard are needed: refuted strengthenings, each
@@ -230,13 +260,13 @@ Proof. vm_compute. repeat split; reflexivity. Qed.
 
 (* without hash_collision_free: two statements with one hash share a server-side statement *)
 Example c08_hash_collision_refuted :
-  agree (Kcollide 4) [Parse 0 1 10; Sync 0 0; Parse 1 1 11; Bind 1 1; Execute 1; Sync 1 0] = (true, false).
+  agree (Kcollide 4) [Parse 0 1 10; Sync 0 0; Parse 1 1 11; Bind 1 0 1; Execute 1 0; Sync 1 0] = (true, false).
 Proof. vm_compute. reflexivity. Qed.
 
 (* G4 (known F11e): a batch that needs more server-side statements than the cache holds *)
 Example c08_gap_batch_larger_than_cache :
-  agree (Kid 1) [Parse 0 1 10; Parse 0 2 11; Bind 0 1; Execute 0; Sync 0 0] = (false, false) /\
-  agree (Kid 2) [Parse 0 1 10; Parse 0 2 11; Parse 0 3 12; Sync 0 0; Bind 0 1; Execute 0; Sync 0 0; Bind 0 1; Execute 0; Sync 0 0] = (false, false) /\
+  agree (Kid 1) [Parse 0 1 10; Parse 0 2 11; Bind 0 0 1; Execute 0 0; Sync 0 0] = (false, false) /\
+  agree (Kid 2) [Parse 0 1 10; Parse 0 2 11; Parse 0 3 12; Sync 0 0; Bind 0 0 1; Execute 0 0; Sync 0 0; Bind 0 0 1; Execute 0 0; Sync 0 0] = (false, false) /\
   (* the second program leaves a statement on the backend that the cache does not know *)
   (let w := fst (run (Kid 2) world0 [Parse 0 1 10; Parse 0 2 11; Parse 0 3 12; Sync 0 0]) in
    (lru (servers w 0), btab (servers w 0)) = ([2; 1], [(2, 12); (1, 11); (0, 10)])).
@@ -245,15 +275,15 @@ Proof. vm_compute. repeat split; reflexivity. Qed.
 (* G1/G3 (known F11h): after an error PostgreSQL skips the rest of the batch; pgcat still applies
    it to the client map and acknowledges it.  [Close s1] after a failing Execute forgets s1 *)
 Example c08_gap_rest_of_batch_not_skipped_after_error :
-  agree (Kid 4) [Parse 0 1 10; Sync 0 0; Parse 0 2 95; Bind 0 2; Execute 0; Close 0 1; Sync 0 0; Bind 0 1; Execute 0; Sync 0 0] = (false, false) /\
-  agree (Kid 4) [Parse 0 1 10; Sync 0 0; Parse 0 2 95; Bind 0 2; Execute 0; Parse 0 3 10; Sync 0 0; Bind 0 3; Execute 0; Sync 0 0] = (false, false).
+  agree (Kid 4) [Parse 0 1 10; Sync 0 0; Parse 0 2 95; Bind 0 0 2; Execute 0 0; Close 0 1; Sync 0 0; Bind 0 0 1; Execute 0 0; Sync 0 0] = (false, false) /\
+  agree (Kid 4) [Parse 0 1 10; Sync 0 0; Parse 0 2 95; Bind 0 0 2; Execute 0 0; Parse 0 3 10; Sync 0 0; Bind 0 0 3; Execute 0 0; Sync 0 0] = (false, false).
 Proof. vm_compute. split; reflexivity. Qed.
 
 (* repaired by d9d0e8b / fc66d7a: an out-of-band error only answers for its own statement;
    statements prepared after a DEALLOCATE ALL in the same batch stay cached *)
 Example c08_fixed_F11g_F11f3 :
-  agree (Kid 4) [Parse 0 9 90; Sync 0 1; Parse 0 1 10; Bind 0 9; Execute 0; Sync 0 0; Parse 1 1 10; Bind 1 1; Execute 1; Sync 1 0] = (false, true) /\
-  agree (Kid 4) [Parse 0 1 99; Bind 0 1; Execute 0; Parse 0 2 10; Sync 0 0; Parse 1 1 10; Bind 1 1; Execute 1; Sync 1 0] = (false, true).
+  agree (Kid 4) [Parse 0 9 90; Sync 0 1; Parse 0 1 10; Bind 0 0 9; Execute 0 0; Sync 0 0; Parse 1 1 10; Bind 1 0 1; Execute 1 0; Sync 1 0] = (false, true) /\
+  agree (Kid 4) [Parse 0 1 99; Bind 0 0 1; Execute 0 0; Parse 0 2 10; Sync 0 0; Parse 1 1 10; Bind 1 0 1; Execute 1 0; Sync 1 0] = (false, true).
 Proof. vm_compute. split; reflexivity. Qed.
 
 (* G3 and deliberate leniency: Bind of a name that does not exist answers E+Z and disconnects
@@ -261,15 +291,15 @@ Proof. vm_compute. split; reflexivity. Qed.
    is forwarded but the client map keeps it; re-Parse of a named statement without Close is
    accepted (PostgreSQL: 42P05) *)
 Example c08_gap_unknown_name_disconnects :
-  model_obs (Kid 4) [Bind 0 1; Execute 0; Sync 0 0; Parse 0 1 10; Sync 0 0] = [NKilled 0] /\
-  spec_obs (Kid 4) [Bind 0 1; Execute 0; Sync 0 0; Parse 0 1 10; Sync 0 0] = [NReplies 0 ([RErr], (0, 0, 0, 1)); NReplies 0 ([], (1, 0, 0, 1))] /\
-  agree (Kid 4) [Parse 0 1 90; Sync 0 0; Bind 0 1; Execute 0; Sync 0 0; Bind 0 1; Execute 0; Sync 0 0] = (false, false).
+  model_obs (Kid 4) [Bind 0 0 1; Execute 0 0; Sync 0 0; Parse 0 1 10; Sync 0 0] = [NKilled 0] /\
+  spec_obs (Kid 4) [Bind 0 0 1; Execute 0 0; Sync 0 0; Parse 0 1 10; Sync 0 0] = [NReplies 0 ([RErr], (0, 0, 0, 1)); NReplies 0 ([], (1, 0, 0, 1))] /\
+  agree (Kid 4) [Parse 0 1 90; Sync 0 0; Bind 0 0 1; Execute 0 0; Sync 0 0; Bind 0 0 1; Execute 0 0; Sync 0 0] = (false, false).
 Proof. vm_compute. repeat split; reflexivity. Qed.
 Example c08_gap_close_unnamed_kept :
-  agree (Kid 4) [Parse 0 0 10; Sync 0 0; Close 0 0; Sync 0 0; Bind 0 0; Execute 0; Sync 0 0] = (false, false).
+  agree (Kid 4) [Parse 0 0 10; Sync 0 0; Close 0 0; Sync 0 0; Bind 0 0 0; Execute 0 0; Sync 0 0] = (false, false).
 Proof. vm_compute. reflexivity. Qed.
 Example c08_reparse_without_close_is_lenient :
-  agree (Kid 4) [Parse 0 1 10; Sync 0 0; Parse 0 1 11; Sync 0 0; Bind 0 1; Execute 0; Sync 0 0] = (true, true).
+  agree (Kid 4) [Parse 0 1 10; Sync 0 0; Parse 0 1 11; Sync 0 0; Bind 0 0 1; Execute 0 0; Sync 0 0] = (true, true).
 Proof. vm_compute. reflexivity. Qed.
 
 (** ** Investigated and fine (behave like a direct connection): (ii) pool eviction while a client
@@ -277,8 +307,8 @@ Proof. vm_compute. reflexivity. Qed.
     whose cache was cleared by DEALLOCATE ALL at checkin, (v) cache size 1 with Parse+Bind+Execute
     in one batch. *)
 Example c08_investigated_fine :
-  agree (Kid 1) [Parse 0 1 10; Sync 0 0; Parse 1 1 11; Sync 1 0; Parse 1 2 10; Bind 1 2; Execute 1; Sync 1 0; Bind 0 1; Execute 0; Sync 0 0] = (true, true) /\
-  agree (Kid 4) [Parse 0 1 10; Parse 0 2 10; Sync 0 0; Close 0 1; Sync 0 0; Bind 0 2; Execute 0; Sync 0 1] = (true, true) /\
-  agree (Kid 4) [Parse 0 1 10; Sync 0 0; Cleanup 0; Bind 0 1; Execute 0; Sync 0 0] = (true, true) /\
-  agree (Kid 1) [Parse 0 1 10; Bind 0 1; Execute 0; Sync 0 0; Parse 0 2 11; Bind 0 2; Execute 0; Sync 0 0; Bind 0 1; Execute 0; Sync 0 0] = (true, true).
+  agree (Kid 1) [Parse 0 1 10; Sync 0 0; Parse 1 1 11; Sync 1 0; Parse 1 2 10; Bind 1 0 2; Execute 1 0; Sync 1 0; Bind 0 0 1; Execute 0 0; Sync 0 0] = (true, true) /\
+  agree (Kid 4) [Parse 0 1 10; Parse 0 2 10; Sync 0 0; Close 0 1; Sync 0 0; Bind 0 0 2; Execute 0 0; Sync 0 1] = (true, true) /\
+  agree (Kid 4) [Parse 0 1 10; Sync 0 0; Cleanup 0; Bind 0 0 1; Execute 0 0; Sync 0 0] = (true, true) /\
+  agree (Kid 1) [Parse 0 1 10; Bind 0 0 1; Execute 0 0; Sync 0 0; Parse 0 2 11; Bind 0 0 2; Execute 0 0; Sync 0 0; Bind 0 0 1; Execute 0 0; Sync 0 0] = (true, true).
 Proof. vm_compute. repeat split; reflexivity. Qed.
